@@ -325,10 +325,13 @@ func forEachCorpusText(c *core.Ctx, opt corpusOpt, f func(family, text string) b
 	}
 	bounds = append(bounds, "repeated-key map literals; 8 signed-operand heads x 7 chain links x lengths 1..1000; chains of 5..1000 same-precedence operators holding one parenthesised group (8 operator pairs x 4 positions)")
 	// wide programs: one small construct repeated 12000 times in sequence (counters that must go back down)
-	for _, unit := range []string{"if a { 1 } else if b { 2 } else { 3 }\n", "(a)\n", "f(a)\n", "x = [a, [b]]\n", "y = {1: {2: 3}}\n", "z = p => { p }\n", "func g() { if a { 1 } }\n", "a[0][1]\n", "-(-a)\n", "for a { if b { 1 } else if c { 2 } }\n", "/* c */ a\n", "\"s\"\n"} {
+	for _, unit := range []string{"if a { 1 } else if b { 2 } else { 3 }\n", "(a)\n", "f(a)\n", "x = [a, [b]]\n", "y = {1: {2: 3}}\n", "z = p => { p }\n", "func g() { if a { 1 } }\n", "a[0][1]\n", "-(-a)\n", "for a { if b { 1 } else if c { 2 } }\n", "/* c */ a\n", "\"s\"\n",
+		// every way an expression parser returns: chained and nested lambdas, calls of literals, index / slice / dot chains, assignments, comments
+		"f = a => b => a + b\n", "(a, b) => c => d => 1\n", "x = a => (b => b)\n", "g = a => { b => { a } }\n", "a.b.c(d)[e]\n", "[1, 2][0:1]\n", "if a { } else { }\n", "func(a, b) { a }(1, 2)\n", "{\"k\": x => x}\n",
+		"-a + !b\n", "a = b = c\n", "// c\n", "\"s\" + `r`\n", "m = macro(x) { quote(unquote(x)) }\n", "x = if a { 1 } else { 2 }\n", "y = for a { break }\n", "a[b][c:d].e\n", "(x => x)(y => y)\n", "f(a => b => c)\n", "x = [a => b, c => d]\n"} {
 		emit("wide", strings.Repeat(unit, 12000))
 	}
-	bounds = append(bounds, "12 constructs each repeated 12000 times in sequence")
+	bounds = append(bounds, "32 constructs each repeated 12000 times in sequence")
 	// deeply nested blocks and expressions (counters / indentation of the printer)
 	for _, depth := range []int{10, 100, 254, 255, 256, 257, 300, 1000} {
 		for _, form := range [][2]string{{"if a { ", " }"}, {"func() { ", " }"}, {"for a { ", " }"}, {"x => { ", " }"}, {"if a { 1 } else { ", " }"}, {"(", ")"}, {"[", "]"}, {"f(", ")"}, {"{1: ", "}"}, {"-", ""}} {
